@@ -98,25 +98,33 @@ def Nodes.xcheck (s : Nodes) (labels : List Nat) (choice : Nat) : Res Nat :=
     .ok s.size
   else .badOracle
 
-/-- One child of `node` moves from `oldBase + l` to `newBase + l` (body of the loop of `rebase`).
-Re-parenting of the grandchildren is written as a map over all slots: under the structural
-invariant the slots whose check is the old child are exactly those `find_labels_of` finds. -/
+def reparentSlot (old idx : Nat) (sl : Slot) : Slot :=
+  if sl.2 = some old then (sl.1, some idx) else sl
+
+/-- The moved child takes over the base of the old one and the grandchildren are re-parented.
+Re-parenting is written as a map over all slots: under the structural invariant the slots whose
+check is the old child are exactly those `find_labels_of` finds. -/
+def Nodes.reparent (s1 : Nodes) (old idx : Nat) : Nodes :=
+  match s1.base old with
+  | some _ =>
+    let s' := s1.setBase idx (s1.base old)
+    { s' with slots := s'.slots.map (reparentSlot old idx) }
+  | none => s1
+
+/-- The old slot is cleared and returned to the free set. -/
+def Nodes.release (s2 : Nodes) (old : Nat) : Nodes :=
+  { slots := s2.slots.set old emptySlot,
+    free := if memNat old s2.free then s2.free else s2.free ++ [old] }
+
+/-- One child of `node` moves from `oldBase + l` to `newBase + l` (body of the loop of `rebase`). -/
 def Nodes.moveChild (s : Nodes) (node oldBase l : Nat) : Option Nodes :=
   match s.recordTransition node l with
   | none => none
   | some (s1, idx) =>
     let old := oldBase + l
     if old < s1.size then
-      let ob := s1.base old
-      let s2 := match ob with
-        | some _ =>
-          let s' := s1.setBase idx ob
-          { s' with slots := s'.slots.map fun (sl : Slot) => if sl.2 = some old then (sl.1, some idx) else sl }
-        | none => s1
       if node = old then none     -- assert!(*node != old_transitted_node_idx)
-      else
-        some { slots := s2.slots.set old emptySlot,
-               free := if memNat old s2.free then s2.free else s2.free ++ [old] }
+      else some ((s1.reparent old idx).release old)
     else none
 
 def Nodes.moveChildren (s : Nodes) (node oldBase : Nat) : List Nat → Option Nodes
